@@ -788,4 +788,142 @@ example : ¬ (triD id (⟨0,0,0⟩ : V3 ℚ) ⟨1,0,0⟩ ⟨0,1,0⟩ ⟨⟨1/4,1
     triT id (⟨0,0,0⟩ : V3 ℚ) ⟨1,0,0⟩ ⟨0,1,0⟩ ⟨⟨1/4,1/4,2⟩, ⟨0,0,-3⟩⟩ = 0) := by
   simp only [triD, triT, triN, V3.dot, V3.cross, V3.sub]; norm_num
 
+/-! ## Aabb / Cuboid, time only (`Aabb::cast_local_ray`, `max_toi` handling corrected) -/
+
+/-- **Aabb::cast_local_ray, `solid = true`** (corrected `max_toi` handling), any non-zero or zero direction with zero
+components allowed, `0 ≤ max_toi ≤ Real::MAX`: the result is the first parameter of `[0, max_toi]` in the box;
+`None` ⇒ the segment misses the box. -/
+theorem aabb_cast_solid_firstHit (big : K) (b : Aabb K) (ray : Ray3 K) (max : K) (hv : AabbValid b)
+    (hmax0 : 0 ≤ max) (hmaxb : max ≤ big) :
+    letI := fieldNum K sq
+    FirstHit (AabbMem b) (rayPt sq ray) max (b.castLocalRay big ray max true) := by
+  rcases aabb_cast_cases sq big b ray max true hv (le_trans hmax0 hmaxb) with ⟨st, inv, hres⟩ | ⟨hres, hno⟩
+  · rw [hres]
+    simp only [Bool.true_eq_false, and_false, if_false]
+    by_cases hm : st.1 ≤ max
+    · rw [if_pos hm]
+      refine ⟨inv.lo, hm, (inv.iff _ inv.lo (le_trans hm hmaxb)).2 ⟨le_refl _, inv.le⟩, ?_⟩
+      intro s hs hst hmem
+      have := (inv.iff s hs (le_trans hst.le (le_trans hm hmaxb))).1 hmem
+      linarith [this.1]
+    · rw [if_neg hm]
+      intro s hs hsm hmem
+      have := (inv.iff s hs (le_trans hsm hmaxb)).1 hmem
+      exact hm (le_trans this.1 hsm)
+  · rw [hres]
+    exact fun s hs hsm => hno s hs (le_trans hsm hmaxb)
+
+/-- **Aabb::cast_local_ray, origin outside the box (both `solid` flags).** First hit as above; moreover a reported hit has
+`t > 0` and lies on a face plane (so on the boundary of the box). -/
+theorem aabb_cast_outside_firstHit (big : K) (b : Aabb K) (ray : Ray3 K) (max : K) (solid : Bool) (hv : AabbValid b)
+    (hmax0 : 0 ≤ max) (hmaxb : max ≤ big) :
+    letI := fieldNum K sq
+    ¬ AabbMem b ray.o →
+    FirstHit (AabbMem b) (rayPt sq ray) max (b.castLocalRay big ray max solid) ∧
+    ∀ t, b.castLocalRay big ray max solid = some t → 0 < t ∧ OnFace b (rayPt sq ray t) := by
+  intro hout
+  have hbig := le_trans hmax0 hmaxb
+  rcases aabb_cast_cases sq big b ray max solid hv hbig with ⟨st, inv, hres⟩ | ⟨hres, hno⟩
+  · -- tmin ≠ 0 because the origin is outside
+    have h0 : st.1 ≠ 0 := by
+      intro h
+      apply hout
+      have := (inv.iff 0 (le_refl _) hbig).2 ⟨by rw [h], by rw [← h]; exact inv.le⟩
+      rwa [rayPt_zero] at this
+    have hpos : 0 < st.1 := lt_of_le_of_ne inv.lo (Ne.symm h0)
+    have hc : ¬ (st.1 = 0 ∧ solid = false) := fun h => h0 h.1
+    have he : (if st.1 = 0 ∧ solid = false then st.2 else st.1) = st.1 := if_neg hc
+    rw [hres, he]
+    by_cases hm : st.1 ≤ max
+    · rw [if_pos hm]
+      refine ⟨⟨inv.lo, hm, (inv.iff _ inv.lo (le_trans hm hmaxb)).2 ⟨le_refl _, inv.le⟩, ?_⟩, ?_⟩
+      · intro s hs hst hmem
+        have := (inv.iff s hs (le_trans hst.le (le_trans hm hmaxb))).1 hmem
+        linarith [this.1]
+      · intro t ht; cases ht
+        exact ⟨hpos, inv.fmin.resolve_left h0⟩
+    · rw [if_neg hm]
+      refine ⟨?_, fun t ht => by cases ht⟩
+      intro s hs hsm hmem
+      have := (inv.iff s hs (le_trans hsm hmaxb)).1 hmem
+      exact hm (le_trans this.1 hsm)
+  · rw [hres]
+    exact ⟨fun s hs hsm => hno s hs (le_trans hsm hmaxb), fun t ht => by cases ht⟩
+
+/-- **Aabb::cast_local_ray, `solid = false`, origin in the box** (corrected): `Some t` ⇒ `t ≤ max_toi`, `t` is the exit
+parameter — `[0,t]` is in the box, nothing of `(t, Real::MAX]` is — and, unless `t` is the `Real::MAX` sentinel, the
+hit point lies on a face plane. `None` ⇒ the exit is beyond `max_toi`: the whole segment stays in the box.
+(On the pinned tree the `None` case returns `Some(max_toi)`: see `aabb_castLocalRayPinned_counterexample`.) -/
+theorem aabb_cast_nonsolid_inside (big : K) (b : Aabb K) (ray : Ray3 K) (max : K) (hv : AabbValid b)
+    (hmax0 : 0 ≤ max) (hmaxb : max ≤ big) :
+    letI := fieldNum K sq
+    AabbMem b ray.o →
+    match b.castLocalRay big ray max false with
+    | some t => t ≤ max ∧ AabbMem b (rayPt sq ray t) ∧ (t < big → OnFace b (rayPt sq ray t)) ∧
+        (∀ s, 0 ≤ s → s ≤ t → AabbMem b (rayPt sq ray s)) ∧ (∀ s, t < s → s ≤ big → ¬ AabbMem b (rayPt sq ray s))
+    | none => ∀ s, 0 ≤ s → s ≤ max → AabbMem b (rayPt sq ray s) := by
+  intro hin
+  have hbig := le_trans hmax0 hmaxb
+  rcases aabb_cast_cases sq big b ray max false hv hbig with ⟨st, inv, hres⟩ | ⟨hres, hno⟩
+  · have h0 : st.1 = 0 := by
+      have hm : AabbMem b (rayPt sq ray 0) := by rw [rayPt_zero]; exact hin
+      have := (inv.iff 0 (le_refl _) hbig).1 hm
+      exact le_antisymm this.1 inv.lo
+    have he : (if st.1 = 0 ∧ false = false then st.2 else st.1) = st.2 := if_pos ⟨h0, rfl⟩
+    rw [hres, he]
+    by_cases hm : st.2 ≤ max
+    · rw [if_pos hm]
+      have h02 : 0 ≤ st.2 := by rw [← h0]; exact inv.le
+      refine ⟨hm, (inv.iff _ h02 inv.hi).2 ⟨inv.le, le_refl _⟩, fun hlt => inv.fmax.resolve_left (ne_of_lt hlt), ?_, ?_⟩
+      · intro s hs hst
+        exact (inv.iff s hs (le_trans hst inv.hi)).2 ⟨by rw [h0]; exact hs, hst⟩
+      · intro s hst hsb hmem
+        have := (inv.iff s (le_trans h02 hst.le) hsb).1 hmem
+        linarith [this.2]
+    · rw [if_neg hm]
+      intro s hs hsm
+      push Not at hm
+      exact (inv.iff s hs (le_trans hsm hmaxb)).2 ⟨by rw [h0]; exact hs, le_trans hsm hm.le⟩
+  · exfalso
+    exact hno 0 (le_refl _) hbig (by rw [rayPt_zero]; exact hin)
+
+/-- **The pinned `Aabb::cast_local_ray` violates the property** (machine-checked witness over `ℚ`): unit cube `[-1,1]³`,
+origin at the centre, direction `(1,0,0)`, `max_toi = 1/2`, `solid = false` ⇒ the pinned code returns `Some(1/2)`, a point
+strictly inside the box (on no face plane), although the exit is at `1 > max_toi`. The corrected model returns `None`. -/
+theorem aabb_castLocalRayPinned_counterexample :
+    letI := fieldNum ℚ id
+    (Aabb.mk ⟨-1,-1,-1⟩ ⟨1,1,1⟩ : Aabb ℚ).castLocalRayPinned ⟨⟨0,0,0⟩, ⟨1,0,0⟩⟩ (1/2) false = some (1/2) ∧
+    ¬ OnFace (Aabb.mk ⟨-1,-1,-1⟩ ⟨1,1,1⟩ : Aabb ℚ) (rayPt id ⟨⟨0,0,0⟩, ⟨1,0,0⟩⟩ (1/2)) ∧
+    (Aabb.mk ⟨-1,-1,-1⟩ ⟨1,1,1⟩ : Aabb ℚ).castLocalRay 1000 ⟨⟨0,0,0⟩, ⟨1,0,0⟩⟩ (1/2) false = none := by
+  refine ⟨?_, ?_, ?_⟩
+  · simp only [Aabb.castLocalRayPinned, slabStep, neq, nmax, nmin]
+    norm_num
+  · simp only [OnFace, rayPt, Ray3.pointAt, V3.add, V3.smul]; norm_num
+  · simp only [Aabb.castLocalRay, slabStep, neq, nmax, nmin]
+    norm_num
+
+/-- **Cuboid::cast_local_ray, solid** (`Cuboid` = `Aabb(−he, he)`), non-negative half-extents: first hit of the cuboid
+`{p | |p_i| ≤ he_i}` (`Cuboid3.Mem` of `Shapes.lean`). -/
+theorem cuboid_cast_solid_firstHit (big : K) (s : Cuboid3 K) (ray : Ray3 K) (max : K)
+    (hhe : 0 ≤ s.he.x ∧ 0 ≤ s.he.y ∧ 0 ≤ s.he.z) (hmax0 : 0 ≤ max) (hmaxb : max ≤ big) :
+    letI := fieldNum K sq
+    FirstHit s.Mem (rayPt sq ray) max (s.castLocalRay big ray max true) := by
+  have hv : AabbValid (⟨@V3.neg K (fieldNum K sq) s.he, s.he⟩ : Aabb K) := by
+    simp only [AabbValid, V3.neg]; refine ⟨?_, ?_, ?_⟩ <;> linarith [hhe.1, hhe.2.1, hhe.2.2]
+  exact aabb_cast_solid_firstHit sq big _ ray max hv hmax0 hmaxb
+
+/-- **`toi_units`, Aabb/Cuboid (solid)**: casting along `l·d` with `max/l` divides the time by `l`
+(both bounds below the `Real::MAX` sentinel). -/
+theorem aabb_toi_units (big : K) (b : Aabb K) (ray : Ray3 K) (l max : K) (hl : 0 < l) (hv : AabbValid b)
+    (hmax0 : 0 ≤ max) (hmaxb : max ≤ big) (hmaxb' : max / l ≤ big) :
+    letI := fieldNum K sq
+    b.castLocalRay big ⟨ray.o, ray.d.smul l⟩ (max / l) true = (b.castLocalRay big ray max true).map (· / l) :=
+  toi_units_of_firstHit sq _ ray l max hl _ _ (aabb_cast_solid_firstHit sq big b ray max hv hmax0 hmaxb)
+    (aabb_cast_solid_firstHit sq big b ⟨ray.o, @V3.smul K (fieldNum K sq) ray.d l⟩ (max / l) hv (div_nonneg hmax0 hl.le) hmaxb')
+
+/-- non-vacuity (box): a valid box, an origin inside and one outside, `0 ≤ max ≤ big`, over `ℚ` -/
+example : AabbValid (⟨⟨-1,-2,-3⟩, ⟨1,2,3⟩⟩ : Aabb ℚ) ∧ AabbMem (⟨⟨-1,-2,-3⟩, ⟨1,2,3⟩⟩ : Aabb ℚ) ⟨1/2, 0, -3⟩ ∧
+    ¬ AabbMem (⟨⟨-1,-2,-3⟩, ⟨1,2,3⟩⟩ : Aabb ℚ) ⟨5, 0, 0⟩ ∧ (0:ℚ) ≤ 10 ∧ (10:ℚ) ≤ 1000 := by
+  simp only [AabbValid, AabbMem]; norm_num
+
 end C04
